@@ -24,6 +24,7 @@ ENV.pop("RUSTFLAGS", None)
 # nom's fixed-width big-endian readers are loops over a constant byte count; give each its
 # natural bound (+1 for the exit test) regardless of the harness's structural bound.
 NATURAL_LOOPS = [
+    (r"^memcmp\.", 20),
     (r"be_u128|be_i128", 17),
     (r"be_u64|be_i64|be_f64", 9),
     (r"be_u32|be_i32|be_f32", 5),
